@@ -41,6 +41,10 @@ add("C14","E1 enum","exploration",
     "Every signed division flavour (truncating, flooring, normalized; ct and vartime; signed and unsigned divisors; equal and mixed widths; checked, operators, assigning, Wrapping, DivVartime) over complete (n, d) products of the signed alphabet in all four sign combinations plus NEAR(q*d) dividends; each returned (q, r) is compared component-wise with BigInt truncating / flooring division (which implies n = q*d + r, |r| < |d| and the sign convention); quotient none exactly for d = 0 or MIN / -1.",
     ASSUME, "bounded-exhaustive enumeration of operand shapes x forms on the real code against a BigInt reference model", "DESIGN.md §3.C14")
 
+add("C20","E1 enum","exploration",
+    "sqrt, sqrt_vartime, wrapping and checked forms and the SquareRoot trait on Uint<1,2,3,4,8,16> and BoxedUint 1..=20 limbs over ALL x < 2^17 (quick) / 2^20 (thorough) in every width plus t^2-1, t^2, t^2+1, t^2+t, t^2+2t for t = 2^j, 2^j+-1, +2, +3 for every j and structured half-width t, 2^BITS-1, neighbours of 2^(BITS-1) and values just above each power of four; result must be the unique s with s^2 <= x < (s+1)^2, checked forms some iff perfect square.",
+    ASSUME, "bounded-exhaustive enumeration (complete low range + structured families) on the real code against BigUint::sqrt", "DESIGN.md §3.C20")
+
 NOT_YET = {}
 ALL = [f"C{i:02d}" for i in range(1,21)]
 import os, sys
